@@ -151,8 +151,11 @@ def run(ctx):
     pool = ThreadPoolExecutor(max_workers=1)
     laws_future = pool.submit(laws)
     # 2. histories from the specification
-    nsim = 3200 if quick else 40000
+    nsim = 2400 if quick else 40000
+    import time
+    t0 = time.time()
     scripts = generate(ctx, nsim)
+    vlib.log("x07: %d histories generated in %.1fs" % (len(scripts), time.time() - t0))
     if len(scripts) < nsim // 2:
         raise vlib.Inconclusive("history generation produced only %d scripts" % len(scripts))
     random.Random(ctx.seed).shuffle(scripts)
@@ -163,8 +166,11 @@ def run(ctx):
     batch = 6000
     for b0 in range(0, len(scripts), batch):
         part = scripts[b0:b0 + batch]
+        t0 = time.time()
         hists, owner = execute(ctx, part, chunk=max(16, min(160, len(part) // 32)))
+        t1 = time.time()
         k, u = judge(ctx, part, hists, owner)
+        vlib.log("x07: batch of %d: driven in %.1fs, judged in %.1fs" % (len(part), t1 - t0, time.time() - t1))
         ok += k
         unex += u
         for h in hists:
@@ -205,7 +211,7 @@ def run(ctx):
         "input and URL variables it saw, the custom response header and the record lock",
         "requests carry no credentials and no authenticator is set: endpoints requiring more than PermitAnyone are "
         "outside this statement (C12); no Origin header (CORS is part of C12)",
-        "one controllable module (x07mod) under module management; a request during its start is released into a start that completes 100 ms later (the package waits up to 10 s)",
+        "one controllable module (x07mod) under module management; a request during its start is released into a start that completes 30 ms later (the package waits up to 10 s)",
         "the api registry is global and has no unregister: every history uses its own path prefix inside one process"])
 
 
